@@ -8,7 +8,7 @@
     of [Sys.step] over some interleaving [l] of [ts].  [AtomicExec] says exactly this and nothing
     else; which calls are one critical section is checked on the footprint table generated from
     the source (model/Brackets.v, theorem C02_atomic_brackets_generated); the calls that are NOT
-    (add / insert*: 2-3 sections) are treated in part 2.
+    (add / insert*: 3-4 sections) are treated in part 2.
 
     Part 2 - add / insert* split into their critical sections ([mstep], [sec_step]) and the
     schedule condition under which the split execution equals the atomic one ([sched_ok]). *)
@@ -22,8 +22,8 @@ Inductive Subseq {A} : list A -> list A -> Prop :=
 | Sub_take : forall t x l, Subseq t l -> Subseq (x :: t) (x :: l).
 
 (** THE ATOMIC-STEP ASSUMPTION: [l] is an interleaving of the per-thread call lists [ts] and every
-    call of [l] is possible when it is made ([hist_ok]: handles in use are not dropped, add/insert*
-    take a bar that is not a member, insert_before/after name a member) - the behaviour of the
+    call of [l] is possible when it is made ([hist_ok]: handles in use are not dropped,
+    insert_before/after name a member) - the behaviour of the
     concurrent program is the sequential run [run W H fails s0 l]. *)
 Definition AtomicExec (W H : N) (fails : N -> bool) (s0 : sys)
     (ts : list (list (N * op))) (l : list (N * op)) : Prop :=
@@ -63,19 +63,21 @@ Definition extra_lines (ex : option (list line)) : list line :=
   match ex with Some e => e | None => [] end.
 
 (* ------------------------------------------------------------------ part 2: the critical sections of add / insert* *)
-(** MultiProgress::{add, insert, insert_from_back} are TWO critical sections, insert_before /
-    insert_after THREE (src/multi.rs `internalize`, lines 131-145 and 170-177; footprints in
-    gen/LockFootprints.v, bound in Brackets.allowed_sections):
+(** MultiProgress::{add, insert, insert_from_back} are THREE critical sections, insert_before /
+    insert_after FOUR (src/multi.rs: the five entry points, `internalize`; after fix bee77c9;
+    footprints in gen/LockFootprints.v, bound in Brackets.allowed_sections):
 
       [MRead k r]      (insert_before/after only) bar lock of the reference bar [r]:
                        `r.index().unwrap()` - the slot of [r], kept in a local of the call
+      [MCheck k b]     bar lock of [b]: is [b]'s draw target a remote of this MultiProgress already?
+                       (fix bee77c9: if so the call returns, "no effect")
       [MAlloc k bl b]  MultiState lock: `idx = state.insert(location)` - a fresh or recycled slot
                        holding the default member (no lines, not a zombie) enters the ordering
       [MAttach k b]    bar lock of [b] (inside it the MultiState lock, for the disconnect of the old
                        target): `b.set_draw_target(new_remote(idx))`
 
-    [k] names the call (its local variable `idx`); between the sections every other thread may
-    run.  Every other call of the model is one section ([MCall]).  (Dropping the last handle is
+    [k] names the call (its locals `idx` / `is_member`); between the sections every other thread
+    may run.  Every other call of the model is one section ([MCall]).  (Dropping the last handle is
     three sections over the MultiState lock alone: width query, final draw, mark_zombie; these ARE
     the two model calls OFinishUsingStyle; ODrop, theorem C04_drop_unfinished, and nobody else
     holds a handle of that bar - no new definition is needed for it.)
@@ -86,10 +88,16 @@ Definition extra_lines (ex : option (list line)) : list line :=
 Inductive mstep :=
 | MCall (o : op)
 | MRead (k r : N)
+| MCheck (k b : N)
 | MAlloc (k : N) (bl : bloc) (b : N)
 | MAttach (k b : N).
 
-Definition locals := N -> option N.
+(** the locals of the calls in flight: the slot index (read for the reference bar, then the one
+    allocated) and the result of the membership check *)
+Record locals := mklc { lc_idx : N -> option N; lc_skip : N -> bool }.
+Definition lc0 : locals := mklc (fun _ => None) (fun _ => false).
+Definition set_idx (lc : locals) (k : N) (v : option N) : locals := mklc (fupd (lc_idx lc) k v) (lc_skip lc).
+Definition set_skip (lc : locals) (k : N) (v : bool) : locals := mklc (lc_idx lc) (fupd (lc_skip lc) k v).
 
 (** ProgressBar::index *)
 Definition bar_index (s : sys) (r : N) : option N :=
@@ -101,9 +109,9 @@ Definition retarget (s : sys) (b : N) (t : target) : sys := upd_bar s b (fun x =
 (** the sections of one public call *)
 Definition op_sections (k : N) (o : op) : list mstep :=
   match o with
-  | OInsert (BAfter r) b => [MRead k r; MAlloc k (BAfter r) b; MAttach k b]
-  | OInsert (BBefore r) b => [MRead k r; MAlloc k (BBefore r) b; MAttach k b]
-  | OInsert bl b => [MAlloc k bl b; MAttach k b]
+  | OInsert (BAfter r) b => [MRead k r; MCheck k b; MAlloc k (BAfter r) b; MAttach k b]
+  | OInsert (BBefore r) b => [MRead k r; MCheck k b; MAlloc k (BBefore r) b; MAttach k b]
+  | OInsert bl b => [MCheck k b; MAlloc k bl b; MAttach k b]
   | _ => [MCall o]
   end.
 
@@ -112,7 +120,7 @@ Definition atom1 (x : N * mstep) : list (N * op) :=
   match snd x with
   | MCall o => [(fst x, o)]
   | MAlloc _ bl b => [(fst x, OInsert bl b)]
-  | MRead _ _ | MAttach _ _ => []
+  | MRead _ _ | MCheck _ _ | MAttach _ _ => []
   end.
 Definition atomize (h : list (N * mstep)) : list (N * op) := flat_map atom1 h.
 
@@ -138,22 +146,28 @@ Section Sections.
     | BEnd => Some LEnd
     | BIndex i => Some (LIndex i)
     | BFromBack i => Some (LFromBack i)
-    | BAfter _ => option_map LAfter (lc k)
-    | BBefore _ => option_map LBefore (lc k)
+    | BAfter _ => option_map LAfter (lc_idx lc k)
+    | BBefore _ => option_map LBefore (lc_idx lc k)
     end.
+
+  (** what the allocation section does: nothing if the check said "member" *)
+  Definition sec_alloc (s : sys) (lc : locals) (k : N) (bl : bloc) : option (mstate * N) :=
+    if lc_skip lc k then None
+    else match sec_iloc lc k bl with Some l => ms_insert (s_mp s) l | None => None end.
 
   Definition sec_step (st : sys * locals) (now : N) (x : mstep) : sys * locals * list termop :=
     let '(s, lc) := st in
     match x with
     | MCall o => (step_sys W H fails s now o, lc, step_out W H fails s now o)
-    | MRead k r => (s, fupd lc k (bar_index s r), [])
+    | MRead k r => (s, set_idx lc k (bar_index s r), [])
+    | MCheck k b => (s, set_skip lc k (is_member s b), [])
     | MAlloc k bl _ =>
-        match match sec_iloc lc k bl with Some l => ms_insert (s_mp s) l | None => None end with
-        | Some (m1, idx) => (set_s_mp s m1, fupd lc k (Some idx), [])
-        | None => (s, fupd lc k None, [])
+        match sec_alloc s lc k bl with
+        | Some (m1, idx) => (set_s_mp s m1, set_idx lc k (Some idx), [])
+        | None => (s, set_idx lc k None, [])
         end
     | MAttach k b =>
-        match lc k with
+        match lc_idx lc k with
         | Some idx => let '(s', e) := bar_set_target W H fails s b (TMulti idx) now in (s', lc, e)
         | None => (s, lc, [])
         end
@@ -179,30 +193,38 @@ Section Sections.
   Definition pend_step (s : sys) (lc : locals) (pend : list pent) (x : mstep) : list pent :=
     match x with
     | MAlloc k bl b =>
-        match match sec_iloc lc k bl with Some l => ms_insert (s_mp s) l | None => None end with
+        match sec_alloc s lc k bl with
         | Some (_, idx) => mkpe k b idx :: pend
         | None => pend
         end
-    | MAttach k b => filter (fun p => negb (N.eqb (pe_bar p) b)) pend
+    | MAttach k b =>
+        match lc_idx lc k with
+        | Some _ => filter (fun p => negb (N.eqb (pe_bar p) b)) pend
+        | None => pend
+        end
     | _ => pend
     end.
 
-  (** THE SCHEDULES COVERED.  While a bar [b] is between its allocation and its attach section:
-      no other section goes through a handle of [b] (S1);  the slot a reference bar [r] had when
-      insert_before/after read it is still the slot of [r] when the allocation section uses it
-      (S2: no remove(r) / re-add of [r] in between);  and, as in [op_ok], the bar added is not a
-      member.  An attach section belongs to a pending allocation of the same call. *)
+  (** THE SCHEDULES COVERED.
+      (S1) while a bar [b] is between its allocation and its attach section no other section goes
+           through a handle of [b] (as subject, as reference bar, or as the bar of another add);
+      (S2) the slot a reference bar [r] had when insert_before/after read it is still the slot of
+           [r] when the allocation section uses it (no remove(r) in between);
+      (S3) the answer of the membership check is still true when the allocation section runs (no
+           add/remove of the same bar through another handle in between).
+      An attach section belongs to a pending allocation of the same call, or does nothing. *)
   Definition sched1 (s : sys) (lc : locals) (pend : list pent) (x : mstep) : Prop :=
     match x with
     | MCall o => forall p, In p pend -> mentions o (pe_bar p) = false
     | MRead k r => pending_bar pend r = false
+    | MCheck k b => pending_bar pend b = false
     | MAlloc k bl b =>
-        pending_bar pend b = false /\ is_member s b = false
+        pending_bar pend b = false /\ lc_skip lc k = is_member s b
         /\ match bl with
-           | BAfter r | BBefore r => pending_bar pend r = false /\ lc k = bar_index s r
+           | BAfter r | BBefore r => pending_bar pend r = false /\ lc_idx lc k = bar_index s r
            | _ => True
            end
-    | MAttach k b => exists idx, In (mkpe k b idx) pend /\ lc k = Some idx
+    | MAttach k b => lc_idx lc k = None \/ exists idx, In (mkpe k b idx) pend /\ lc_idx lc k = Some idx
     end.
 
   Fixpoint sched_ok (s : sys) (lc : locals) (pend : list pent) (h : list (N * mstep)) : Prop :=
